@@ -253,7 +253,7 @@ int main(int argc, char **argv) {
             int n = unhex(a1, bytes);
             for (int i = 0; i < n && !dead && !terminal; i++) do_feed(bytes + i, 1, "F");
         }
-        else if (!strcmp(cmd, "END")) { if (P->has_end) do_end(ST, "E"); }
+        else if (!strcmp(cmd, "END")) { if (P->has_end && !terminal) { int c = do_end(ST, "E"); if (c != P->code_ok) terminal = 1; } }
         else if (!strcmp(cmd, "ENDCOPY")) {
             if (P->has_end) {
                 void *c = malloc(P->state_size);
